@@ -23,7 +23,8 @@ pub fn check(p: &Pos, rep: &mut Report, rng: &mut StdRng) {
         let cur = bb.is_current_in_check();
         let w = bb.is_in_check(&Color::WHITE);
         let b = bb.is_in_check(&Color::BLACK);
-        let empty = bb.generate_legal_moves().is_empty();
+        let legal_list: Vec<String> = bb.generate_legal_moves().iter().map(|m| m.to_uci_string()).collect();
+        let empty = legal_list.is_empty();
         let mut bb = load(p)?;
         let term_eval = ehook::static_eval(&bb, false);
         let mut after = Vec::new();
@@ -37,9 +38,9 @@ pub fn check(p: &Pos, rep: &mut Report, rng: &mut StdRng) {
         }
         let pseudo = bb.generate_pseudo_legal_moves();
         let any_legal = bb.is_any_move_legal(&pseudo);
-        Ok::<_, String>((cur, w, b, empty, term_eval, after, any_legal))
+        Ok::<_, String>((cur, w, b, empty, term_eval, after, any_legal, legal_list))
     });
-    let (cur, w, b, empty, term_eval, after, any_legal) = match r {
+    let (cur, w, b, empty, term_eval, after, any_legal, legal_list) = match r {
         Err(pm) => { rep.violation(&format!("check-{}", panic_sig(&pm)), format!("check detection panicked in {}: {}", fen, pm), replay); return; }
         Ok(Err(e)) => { rep.violation("load-failed", e, replay); return; }
         Ok(Ok(x)) => x,
@@ -53,6 +54,19 @@ pub fn check(p: &Pos, rep: &mut Report, rng: &mut StdRng) {
     }
     if b != ref_b {
         rep.violation(&format!("is_in_check-black:{}", if ref_b { "missed" } else { "phantom" }), format!("is_in_check(BLACK)={} but rules say {} in {}", b, ref_b, fen), replay.clone());
+    }
+    // the legal-move list is the packaged form of "pseudo-legal and valid afterwards": exactly the
+    // moves after which the rules see the mover's king unattacked, each once
+    {
+        let want: std::collections::BTreeSet<String> = ref_pseudo.iter().filter(|m| !p.make(**m).in_check(white)).map(|m| m.uci()).collect();
+        let got: std::collections::BTreeSet<String> = legal_list.iter().cloned().collect();
+        for u in want.difference(&got) {
+            rep.violation(&format!("legal-list-lacks-a-valid-move:{}", crate::c01::move_kind(p, u)), format!("generate_legal_moves() lacks {} in {} although the position after it is valid", u, fen), json!({"kind":"c05","fen":fen,"move":u}));
+        }
+        for u in got.difference(&want) {
+            rep.violation(&format!("legal-list-has-an-invalid-move:{}", crate::c01::move_kind(p, u)), format!("generate_legal_moves() offers {} in {} although it leaves the own king attacked (or is no move)", u, fen), json!({"kind":"c05","fen":fen,"move":u}));
+        }
+        if got.len() != legal_list.len() { rep.violation("legal-list-duplicate", format!("generate_legal_moves() lists a move twice in {}", fen), replay.clone()); }
     }
     let ref_empty = p.legal_moves().is_empty();
     if empty != ref_empty {
